@@ -13,7 +13,7 @@
    c12_nil_means_response (200 <= status: a 1xx block with END_STREAM is delivered as nil; see C12_ex_1xx_end_stream). *)
 From H2V Require Import Base.Bytes Base.MachineInt Base.Result Gen.GenConsts Impl.Hpack Impl.ServerConn Impl.ClientConn
      Impl.ClientInst Proofs.CliBase Proofs.CliDefs Proofs.CliResInv Proofs.CliResStep Proofs.CliResMoves Proofs.CliResThms
-     Proofs.CliResInst.
+     Proofs.CliResGoAway Proofs.CliResNil Proofs.CliResInst.
 From Coq Require Import ZArith List Bool.
 Import ListNotations.
 Local Open Scope N_scope.
@@ -111,6 +111,34 @@ Theorem C12_write_after_close : forall cfg first evs tag rq q,
 Proof. exact i_write_after_close. Qed.
 Print Assumptions C12_write_after_close.
 
+(* ---------- (b) nil only for a response the server completed ---------- *)
+
+(* a nil result for tag: the request had a stream (sid <> 0), and at some point of the history (evs = pre ++ frame :: post)
+   the running read loop, on the open socket, took in a frame fr of that stream, then on the request table, such that
+   - END_STREAM was seen (es_seen): fr is a DATA frame with END_STREAM, or a HEADERS frame with END_HEADERS and
+     END_STREAM, or the CONTINUATION frame with END_HEADERS of a block whose HEADERS frame had END_STREAM;
+   - a status was seen (status_seen): a final status earlier (gotStatus of the request's Ctx), or a :status field in the
+     header block fr completes (the connection's hdrStatus register after readStream is not 0).
+   (That it is that step which put nil into Err, and that nothing else in the model ever does, is the proof: nil_inv_run.) *)
+Theorem C12_nil_complete : forall cfg first evs tag retry resp,
+  In (tag, retry, CENil, resp) (results_of (cli_tr cfg first evs)) ->
+  exists x, cst_ctx (cli_run cfg first evs) tag = Some x /\ ct_sid x <> 0 /\
+    exists pre fr post, evs = pre ++ CEvRL (RFrame fr) :: post /\ sf_sid fr = ct_sid x /\
+      cl_rl_live (cli_run cfg first pre) = true /\ cc_netClosed (cli_run cfg first pre) = false /\
+      es_seen (cli_run cfg first pre) fr /\
+      exists t0 x0, In (ct_sid x, t0) (cc_reqQueued (cli_run cfg first pre)) /\ cst_ctx (cli_run cfg first pre) t0 = Some x0 /\
+                    ct_done x0 = false /\ status_seen cli_dec_field (cli_run cfg first pre) fr x0.
+Proof. exact i_nil_complete. Qed.
+Print Assumptions C12_nil_complete.
+
+(* NOT PROVED (C12_nil_complete is its partial): the same in terms of the Response handed back. What is missing is the
+   link, across the frames of one header block, between the connection's hdrStatus register and the status stored in the
+   request's Response (readHeaderField sets both together, under the Ctx taken by dispatch), and that the Response is
+   not touched between finish and the caller's receive. "200 <=" instead of "100 <=" would be FALSE: C12_ex_1xx_end_stream *)
+Definition C12_nil_status_statement : Prop :=
+  forall cfg first evs tag retry resp,
+    In (tag, retry, CENil, resp) (results_of (cli_tr cfg first evs)) -> (100 <= cr_status resp <= 999)%Z.
+
 (* ---------- (c) no self-deadlock, no goroutine parked for ever, no panic ---------- *)
 Theorem C12_no_self_deadlock : forall cfg first evs, existsb is_deadlock (cli_tr cfg first evs) = false.
 Proof. exact i_no_self_deadlock. Qed.
@@ -132,6 +160,28 @@ Theorem C12_trace_safe_generic : forall hstate dec_field enc_field enc_set_max c
   dl_item o = false /\ (pn_item o = true -> ~ no_panic_dec dec_field).
 Proof. exact @trace_safe. Qed.
 Print Assumptions C12_trace_safe_generic.
+
+(* ---------- (d) the pool ---------- *)
+
+(* markFinished only after the connection has let go: nothing of the connection refers to a Ctx marked finished - not
+   the queue `in`, not the request table, not the pending bodies (cst_refers) *)
+Theorem C12_finished_not_referred : forall cfg first evs t x,
+  cst_ctx (cli_run cfg first evs) t = Some x -> ct_finished x = true -> cst_refers (cli_run cfg first evs) t = false.
+Proof. exact i_finished_not_held. Qed.
+Print Assumptions C12_finished_not_referred.
+
+(* c12_pool_safe and more: a pool item (releaseCtx) only comes out of the caller's receive, and only for a Ctx the
+   connection has marked finished and whose cancel timer is stopped (not armed, or armed and not run out) - `reusable`;
+   after the step nothing of the connection refers to it, it is taken back (done, resolved: any later resolve is a no-op,
+   acquireFor refuses) and its timer is disarmed (a later CEvTimeout is a no-op): no loop and no timer can resolve it *)
+Theorem C12_pool_safe : forall cfg first evs e tag,
+  In e (cli_log cfg first evs) -> In (COPoolPut tag) (le_items e) ->
+  le_ev e = CEvReceive tag /\ cst_refers (le_after e) tag = false /\
+  exists x, cst_ctx (le_before e) tag = Some x /\ ct_finished x = true /\ (ct_armed x = true -> ct_fired x = false) /\
+            cst_ctx (le_after e) tag = Some (recv_ctx x) /\ ct_pooled (recv_ctx x) = true /\
+            ct_armed (recv_ctx x) = false /\ ct_done (recv_ctx x) = true /\ ct_resolved (recv_ctx x) = true.
+Proof. exact i_pool_put_safe. Qed.
+Print Assumptions C12_pool_safe.
 
 (* ---------- examples ---------- *)
 
@@ -183,6 +233,22 @@ Example C12_ex_timeout :
   map (fun r => snd (fst r))
       (results_of (cli_tr ex_cfg_armed [] [CEvSubmit 0 ex_get true; CEvWLIn; CEvTimeout 0; CEvTimeoutCancel 0; CEvReceive 0]))
   = [CETimeout].
+Proof. vm_compute. reflexivity. Qed.
+
+(* nil needs the status: DATA with END_STREAM on a stream that has had no HEADERS is answered with an error *)
+Example C12_ex_data_before_headers :
+  map (fun r => (snd (fst r), cr_status (snd r)))
+      (results_of (cli_tr ex_cfg [] [CEvSubmit 0 ex_get true; CEvWLIn; CEvRL (ex_data 1 true [97; 98]); CEvReceive 0]))
+  = [(CEMalformed, 0%Z)].
+Proof. vm_compute. reflexivity. Qed.
+
+(* the pool: a completed request goes back to the pool; one answered by the timer while still on the table does not *)
+Example C12_ex_pool :
+  (filter (fun o => match o with COPoolPut _ => true | _ => false end)
+          (cli_tr ex_cfg_armed [] [CEvSubmit 0 ex_get true; CEvWLIn; CEvRL (ex_headers 1 true ex_block_200); CEvReceive 0]),
+   filter (fun o => match o with COPoolPut _ => true | _ => false end)
+          (cli_tr ex_cfg_armed [] [CEvSubmit 0 ex_get true; CEvWLIn; CEvTimeout 0; CEvReceive 0; CEvTimeoutCancel 0]))
+  = ([COPoolPut 0], []).
 Proof. vm_compute. reflexivity. Qed.
 
 (* KNOWN (left as an observation in the Go code): a 1xx header block carrying END_STREAM is delivered as a success, so
